@@ -3,6 +3,7 @@ from .common import *
 from . import store
 from . import io as pvio
 from . import index as pvindex
+from . import tstore as pvts
 
 
 HCFGS_VARIETY = [
@@ -284,8 +285,226 @@ def check_C09(run):
     return run.finish('model_checking', ie.coverage())
 
 
-CHECKS = {'C01': check_C01, 'C02': check_C02, 'C03': check_C03, 'C04': check_C04, 'C07': check_C07, 'C09': check_C09,
-          'C12': check_C12, 'C13': check_C13, 'C15': check_C15}
+
+def check_C10(run):
+    q = Q(run)
+    se = store.StoreEngine(run)
+    run.build()
+    # design level: the hierarchy algorithm never filters out a stored key (PearlFilters)
+    for name, consts in [('filters-g2', dict(KeysF='{1, 2, 5}', NBits='4', GroupSize='2', MaxBlobs='3' if q else '4', Level='1')),
+                         ('filters-g3', dict(KeysF='{1, 4}', NBits='3', GroupSize='3', MaxBlobs='4' if q else '5', Level='1')),
+                         ('filters-nobloom', dict(KeysF='{1, 2, 5}', NBits='0', GroupSize='2', MaxBlobs='3' if q else '4', Level='1'))]:
+        text = store.cfg_text('FSpec', consts, ['NoFalseNegative', 'ActiveNoFalseNegative', 'FileEqualsMemory'], 'CONSTRAINT FBound\n')
+        r = run.tlc('PearlFilters', text, name, workers=8, timeout=3000)
+        se.mc_states += r['distinct']
+        se.mc_transitions += r['generated']
+        run.log('TLC %s: %d generated / %d distinct, %.0fs ok=%s' % (name, r['generated'], r['distinct'], r['wall'], r['ok']))
+        if not r['ok']:
+            if r['rc'] == 124:
+                raise ToolError('TLC time-out in %s' % name)
+            ex = run.tlc_error_excerpt(r)
+            if any('violated' in e for e in r['errors']):
+                run.violation('C10', dict(kind='tlc-counterexample', config=name, text=ex), 'TLC: false negative in the filter hierarchy design (%s)\n%s' % (name, ex[:2500]))
+            else:
+                print(ex[:3000])
+                raise ToolError('TLC failed in %s' % name)
+    # code level: behaviours with many blobs, restores, deletes into closed blobs, off-loading
+    hc = [dict(ks=4, bloom='small', group=2, rt='mt', wait=True), dict(ks=8, bloom='tiny', group=2, rt='mt', wait=True),
+          dict(ks=4, bloom='odd', group=3, rt='ct', wait=True), dict(ks=32, bloom='off', group=2, rt='mt', wait=True),
+          dict(ks=1, bloom='tiny', group=3, rt='mt', wait=True), dict(ks=4, bloom='small', group=2, rt='mt', wait=False),
+          dict(ks=4, bloom='default', group=2, rt='mt', wait=True)]
+    suites = [
+        dict(name='filt-2k', consts=dict(Keys='{1, 2}', MaxTs='1', OffloadLevels='{0, 1, 2}'), genlen=5 if q else 6,
+             acts=['write', 'delete', 'close_active', 'restore_active', 'offload', 'restart'],
+             restarts_set=store.restarts(gs=(True,), dmgs=('keep', 'lose')), nkeys=2, sample=(1, 30) if q else (1, 3)),
+        dict(name='sim', consts=dict(Keys='{1, 2, 3, 4}', MaxTs='2', OffloadLevels='{0, 1, 2, 3}'), genlen=40,
+             acts=['write', 'delete', 'close_active', 'restore_active', 'create_active', 'force_update', 'offload', 'restart', 'free_excess'],
+             restarts_set=store.restarts(dmgs=('keep', 'lose')), nkeys=4, simulate=250 if q else 10000, workers=1 if q else 8),
+    ]
+    for s in suites:
+        s = dict(s)
+        nkeys = s.pop('nkeys')
+        r = se.generate(**s)
+        mm = se.replay(r['out'], hc, nkeys, tag='-' + s['name'])
+        se.judge(mm)
+        os.remove(r['out'])
+    run.assumptions += ['false positives are never an alarm; for absent keys only equality of the answers before and after off-loading is demanded',
+                        'the abstract hash of PearlFilters has collisions by construction; real hashing (aHash) is exercised only through the replay']
+    return run.finish('model_checking', se.coverage())
+
+
+
+def check_C11(run):
+    """I/O fault containment: behaviours re-executed with the n-th file operation of a kind failing;
+    the recorded calls, results and answers are validated by TLC against TraceStore, where a failed
+    call must have had no visible effect and everything acknowledged earlier stays served."""
+    q = Q(run)
+    se = store.StoreEngine(run)
+    ts = pvts.TraceStoreEngine(run, se)
+    run.build()
+    suites = [
+        dict(name='fault-1k', consts=dict(Keys='{1}', MaxTs='2'), genlen=4,
+             acts=['write', 'delete', 'close_active', 'restore_active', 'create_active', 'force_update'], nkeys=1,
+             sample=(1, 60) if q else (1, 6)),
+        dict(name='fault-2k', consts=dict(Keys='{1, 2}', MaxTs='2'), genlen=5,
+             acts=['write', 'delete', 'close_active', 'create_active'], nkeys=2, sample=(1, 900) if q else (1, 60)),
+    ]
+    total_exec = 0
+    by_plan = {}
+    for s in suites:
+        s = dict(s)
+        nkeys = s.pop('nkeys')
+        r = se.generate(**s)
+        # shards: each runs every fault plan over its share of the behaviours
+        shards = min(NCPU, 12)
+        files = [open(os.path.join(run.work, 'fshard-%s-%d.txt' % (s['name'], i)), 'w') for i in range(shards)]
+        n = 0
+        with open(r['out'], errors='replace') as f:
+            for line in f:
+                if line.startswith('<<"BEHAVIOUR"'):
+                    files[n % shards].write(line)
+                    n += 1
+        for f in files:
+            f.close()
+        os.remove(r['out'])
+        procs = []
+        for i in range(shards):
+            h = dict(ks=4 if i % 2 else 8, bloom='small', group=2 if i % 3 else 8, rt='mt' if i % 4 else 'ct', wait=True, seed=run.seed * 100 + i)
+            out = os.path.join(run.work, 'fault-%s-%d.out' % (s['name'], i))
+            tr = os.path.join(run.work, 'ftrace-%s-%d.ndjson' % (s['name'], i))
+            cmd = [os.path.join(BIN, 'replay'), '--cfg', json.dumps(h), '--nkeys', str(nkeys), '--faults-out', tr]
+            if not q:
+                cmd.append('--dense')
+            procs.append((subprocess.Popen(cmd, stdin=open(files[i].name), stdout=open(out, 'w'), stderr=open(out + '.err', 'w')), out, tr, h))
+        mism = []
+        for p, out, tr, h in procs:
+            rc = p.wait()
+            ok = False
+            for line in open(out, errors='replace'):
+                if line.startswith('MISMATCH '):
+                    mism.append(json.loads(line[9:]))
+                elif line.startswith('RESULT '):
+                    res = json.loads(line[7:])
+                    ok = True
+                    total_exec += res['executed']
+                    for k, v in res.get('by_plan', {}).items():
+                        by_plan[k] = by_plan.get(k, 0) + v
+                    if res.get('sample') and len(run.samples) < 4:
+                        run.samples.append(res['sample'])
+            if rc != 0 or not ok:
+                raise ToolError('fault replay failed rc=%s (%s)' % (rc, out))
+        run.log('%s: %d behaviours x fault plans -> %d executions in which the fault fired, %d direct mismatches' % (s['name'], n, total_exec, len(mism)))
+        for rec in mism:
+            m = rec['mismatches'][0]
+            facts = dict(kind=m['kind'], action=m.get('action', ''), sig=rec.get('sig', []), fault=rec.get('fault', ''))
+            prop = 'C07' if m['kind'].startswith('blob_bytes') else 'C11'
+            text = '%s under %s: expected %s got %s (behaviour: %s)' % (m['kind'], rec.get('fault'), json.dumps(m['expected'])[:150], json.dumps(m['got'])[:300], ' '.join(rec.get('sig', [])))
+            if prop != 'C11':
+                run.notes.append('attributed to %s: %s' % (prop, text[:200]))
+                continue
+            kf = match_known('C11', facts)
+            if kf:
+                line = 'KNOWN-FINDING: property=C11 %s: %s' % (kf.get('id', ''), kf.get('what', ''))
+                if line not in run.known:
+                    run.known.append(line)
+            else:
+                run.violation('C11', rec, text)
+
+        def describe(ex, step):
+            hist = ' '.join('%s%s' % (e.get('a', ''), '' if e.get('mode') in (None, 'normal') else '[' + e['mode'] + ']') for e in ex if e.get('ev') == 'step')
+            faulted = [e for e in ex if e.get('mode') in ('failed', 'degraded')]
+            fa = faulted[0]['a'] if faulted else ''
+            text = ('execution not explained by the specification at step "%s" (mode %s, result %s/%s): history %s; observed %s'
+                    % (step.get('a'), step.get('mode'), step.get('rt'), step.get('rn'), hist, json.dumps(step.get('obs'))[:400]))
+            return text, dict(kind='store-trace', action=step.get('a', ''), faulted_action=fa, mode=step.get('mode', ''))
+
+        for p, out, tr, h in procs:
+            if os.path.getsize(tr) > 0:
+                ts.judge(tr, 'ts-%s-%s' % (s['name'], os.path.basename(tr)[7:-7]), dict(s['consts']), 'C11', describe)
+    cov = dict(evaluations=total_exec, distinct_nontrivial=total_exec, fault_plans=by_plan,
+               states=ts.states, traces_validated_against_impl=ts.traces, trace_steps=ts.steps,
+               rule='one execution = one TLC-generated behaviour x one fault plan (operation kind, file class, n-th occurrence, '
+                    'EIO / ENOSPC / short write) in which the fault actually fired; every call result and every answer after every '
+                    'step, and after a final restart, is validated by TLC against TraceStore (failed call = no visible effect)')
+    run.assumptions += ['faults are injected through the cfg(pearl_verif) I/O tap at the level of pearl\'s file operations, one per execution',
+                        'a blob quarantined at the restart after a fault is accepted when its bytes are unchanged (snapshots); its records are then not compared']
+    return run.finish('fault_enumeration', cov)
+
+
+
+def check_C16(run):
+    """Offline tools: PearlTools gives, for every blob size and every single damage, the allowed outcomes;
+    the harness expands each abstract damage into concrete bytes and runs the real tools."""
+    q = Q(run)
+    run.build()
+    consts = dict(MaxN='3' if q else '4')
+    invs = ['NoLoss', 'OnlyIntact', 'SkipRecoversMore', 'AfterIsolatedDamage', 'AcceptIffWellFormed', 'EmitCase']
+    r = run.tlc('GenTools', store.cfg_text('Spec', consts, invs), 'tools', workers=4, timeout=1200)
+    run.log('TLC tools: %d cases, ok=%s' % (r['distinct'], r['ok']))
+    if not r['ok']:
+        ex = run.tlc_error_excerpt(r)
+        if any('violated' in e for e in r['errors']):
+            run.violation('C16', dict(kind='tlc-counterexample', text=ex), 'TLC: the case analysis of PearlTools is inconsistent with the property\n' + ex[:2500])
+            return run.finish('fault_enumeration', dict(evaluations=1, distinct_nontrivial=2, rule='TLC only'))
+        print(ex[:3000])
+        raise ToolError('TLC failed on PearlTools')
+    shards = min(NCPU, 12)
+    files = [open(os.path.join(run.work, 'tshard-%d.txt' % i), 'w') for i in range(shards)]
+    n = 0
+    for line in open(r['out'], errors='replace'):
+        if line.startswith('<<"TOOLCASE"'):
+            files[n % shards].write(line)
+            n += 1
+    for f in files:
+        f.close()
+    procs = []
+    for i in range(shards):
+        out = os.path.join(run.work, 'tools-%d.out' % i)
+        cmd = [os.path.join(BIN, 'tools')] + ([] if q else ['--dense'])
+        procs.append((subprocess.Popen(cmd, stdin=open(files[i].name), stdout=open(out, 'w'), stderr=open(out + '.err', 'w')), out))
+    cases = variants = 0
+    kinds = {}
+    for p, out in procs:
+        rc = p.wait()
+        ok = False
+        for line in open(out, errors='replace'):
+            if line.startswith('MISMATCH '):
+                rec = json.loads(line[9:])
+                m = rec['mismatches'][0]
+                facts = dict(kind=m.get('tool', ''), region=rec['case']['dmg']['region'], dmg=rec['case']['dmg']['kind'], skip=m.get('skip'))
+                text = 'case %s: %s' % (json.dumps(rec['case']), json.dumps(m)[:400])
+                kf = match_known('C16', facts)
+                if kf:
+                    line2 = 'KNOWN-FINDING: property=C16 %s: %s' % (kf.get('id', ''), kf.get('what', ''))
+                    if line2 not in run.known:
+                        run.known.append(line2)
+                else:
+                    run.violation('C16', rec, text)
+            elif line.startswith('RESULT '):
+                res = json.loads(line[7:])
+                ok = True
+                cases += res['cases']
+                variants += res['variants']
+                for k, v in res.get('kinds', {}).items():
+                    kinds[k] = kinds.get(k, 0) + v
+                if res.get('sample') and len(run.samples) < 4:
+                    run.samples.append(res['sample'])
+        if rc != 0 or not ok:
+            raise ToolError('tools process failed rc=%s (%s)' % (rc, out))
+    run.log('%d cases expanded into %d byte-level variants' % (cases, variants))
+    cov = dict(evaluations=variants, distinct_nontrivial=cases, states=r['distinct'], damage_classes=kinds,
+               rule='a case = (number of records, one abstract damage: truncation inside a region / at a record boundary / in the '
+                    'blob header, or one altered byte in a region); every case is expanded to concrete byte positions and xor '
+                    'patterns; validate_blob, recovery_blob (plain / skipping, validate_every 0 / 1), move_and_recover_blob run on each; '
+                    'the output is validated and opened by the real storage; the served set must be one the specification allows')
+    run.assumptions += ['metadata bytes are not protected by any checksum: altered metadata that still parses is tolerated',
+                        'a damaged size field (meta_size, data_size, key length prefix) makes later records unlocatable: only the records before it are demanded',
+                        'blob header version / flags are not checked by the tools (validate_without_version): either verdict accepted']
+    return run.finish('fault_enumeration', cov)
+
+
+CHECKS = {'C01': check_C01, 'C02': check_C02, 'C03': check_C03, 'C04': check_C04, 'C07': check_C07, 'C09': check_C09, 'C10': check_C10, 'C11': check_C11,
+          'C12': check_C12, 'C13': check_C13, 'C15': check_C15, 'C16': check_C16}
 
 
 
